@@ -46,7 +46,9 @@ func featSig(feats map[string]bool) string {
 func judgeBill(c *Ctx, r *billRun, origin string, feats map[string]bool, classFilter func(class string) bool) (compared bool) {
 	switch {
 	case r.Panic != nil:
+		// no figure is presented at all: the calculation of a well-formed document crashed
 		c.R.Count("panics", 1)
+		c.R.Fail("panic:"+r.PanicAt, fmt.Sprintf("%s: calculation panicked: %v", origin, r.Panic), map[string]any{"origin": origin, "input": json.RawMessage(r.In)})
 		return false
 	case r.CalcErr != nil:
 		c.R.Count("calculation_refused", 1)
@@ -238,6 +240,7 @@ func runC01(c *Ctx) {
 	for _, k := range keys {
 		c.R.Count(k, total[k])
 	}
+	c.Require("documents", "corpus_documents_compared", "exact_half_unit_ties", "feature:preset-rounding", "feature:doc-dc-percent-base", "feature:breakdown", "feature:advance-percent", "recalculated_after_removing:charges", "unrounded_bound_checked")
 }
 
 // runBillRefOnly re-runs only the reference with extra working precision.
